@@ -13,7 +13,7 @@ Quick == Tier = "quick"
 Pairs ==
   { <<OctKey(32, "a", NONE, NONE), "HS256">>, <<OctKey(48, "a", NONE, NONE), "HS384">>, <<OctKey(64, "a", NONE, NONE), "HS512">>,
     <<AsymKey("rsa2048a", 1, NONE, NONE), "RS256">>, <<AsymKey("rsa2048a", 1, NONE, NONE), "PS256">>,
-    <<AsymKey("rsa2048a", 1, "PS384", NONE), "PS384">>,
+    <<AsymKey("rsa2048a", 1, "PS384", NONE), "PS384">>, <<AsymKey("rsa2052a", 1, NONE, NONE), "RS256">>, <<AsymKey("rsa2052a", 1, NONE, NONE), "PS256">>,
     <<AsymKey("p256a", 1, NONE, NONE), "ES256">>, <<AsymKey("p384a", 1, NONE, NONE), "ES384">>,
     <<AsymKey("p521a", 1, NONE, NONE), "ES512">>, <<AsymKey("k256a", 1, NONE, NONE), "ES256K">>,
     <<AsymKey("ed25519a", 1, NONE, NONE), "EdDSA">>, <<AsymKey("ed448a", 1, NONE, NONE), "EdDSA">> }
